@@ -109,7 +109,25 @@ func genPos(r *Rng, size int) int {
 	return math.MaxInt
 }
 
+// fillIdx expands a Fill op (A = [n, start]) into n table indices.
+func fillIdx(a []int) []int {
+	out := make([]int, a[0])
+	for i := range out {
+		out[i] = a[1] + i*7
+	}
+	return out
+}
+
+// genFill draws a bulk prefill op: large containers (array capacities above 1024, heap levels wider
+// than 32, B-trees several levels deep) are reached in one step so that the rest of the run plays there.
+func genFill(r *Rng, id int, lo, hi int) Op {
+	return Op{ID: id, N: "Fill", A: []int{r.Range(lo, hi), r.Intn(1000)}}
+}
+
 func genCount(r *Rng) int {
+	if r.P(1, 60) {
+		return r.Range(65, 140) // a long variadic list (bulk paths)
+	}
 	return []int{0, 1, 1, 1, 2, 2, 3, 3, 9}[r.Intn(9)]
 }
 
@@ -171,6 +189,9 @@ func checkC15(o *Oracle, c baseContainer, nValues, nKeys int, name string) {
 func jsonText(j jsonIO) string {
 	b, err := j.ToJSON()
 	if err != nil {
+		if strings.Contains(err.Error(), "unsupported value") {
+			return "ERR: unsupported value" // NaN / Inf: which one is met first depends on hash order
+		}
 		return "ERR:" + err.Error()
 	}
 	return string(b)
